@@ -4,7 +4,13 @@
 (* The descriptor cStructs must equal the IDL in                           *)
 (* harness/cmd/inproc/mask.go (checked at run time: `inproc maskdesc`).    *)
 (***************************************************************************)
-EXTENDS FieldMask, Json
+EXTENDS Integers, Sequences, FiniteSets, TLC, SequencesExt, Json
+
+CONSTANTS RootName, AlphabetName, PimsName, MaxLen, Fixes
+VARIABLES mode, hist, trie, berr
+
+St(k, n, s) == [k |-> k, n |-> n, s |-> s]
+RootTy0 == [k |-> "struct", name |-> RootName]
 
 Scalar == [k |-> "scalar"]
 StructT(n) == [k |-> "struct", name |-> n]
@@ -125,14 +131,14 @@ RECURSIVE Positions(_)
 Positions(ty) ==
   CASE ty.k = "scalar" -> {<<>>}
     [] ty.k = "struct" ->
-         UNION {{<<St("f", Structs[ty.name][i].id, "")>> \o p : p \in Positions(Structs[ty.name][i].t)} :
-                i \in 1..Len(Structs[ty.name])}
+         UNION {{<<St("f", cStructs[ty.name][i].id, "")>> \o p : p \in Positions(cStructs[ty.name][i].t)} :
+                i \in 1..Len(cStructs[ty.name])}
          \cup {<<St("f", u, "")>> : u \in ExtraIds(ty.name)}
     [] ty.k = "list" -> {<<St("i", i, "")>> \o p : i \in cIdx, p \in Positions(ty.e)}
     [] ty.k = "intmap" -> {<<St("i", i, "")>> \o p : i \in cIntKeys, p \in Positions(ty.e)}
     [] ty.k = "strmap" -> {<<St("s", 0, s)>> \o p : s \in cStrKeys, p \in Positions(ty.e)}
     [] OTHER -> {<<St("i", 0, "")>> \o p : p \in Positions(ty.e)}
-cWalks == SetToSeq(Positions(RootTy))
+cWalks == SetToSeq(Positions(RootTy0))
 
 \* PathInMask queries: the alphabet's own paths and single-step variations, and query paths with an unknown field of
 \* the root.  (Other ill-formed / ill-typed query paths are left out: the statement says what NewFieldMask does with
@@ -155,35 +161,53 @@ cPimsR == <<pX, pXid, pS, pSa, pSb, pL0, pL1, pLs, pL0a, pL1b, pLsa, pSS1, pSSs,
             eNope, eId9>>
 cPimsN == <<nX, nNeg, nSa, nNSa>>
 
+
+\* ---- the instance ------------------------------------------------------------
+\* (Plain definitions, not cfg overrides: TLC evaluates a constant definition once, but re-evaluates an operator that
+\* overrides a CONSTANT in the cfg at every reference.)
+cAlphabet == CASE AlphabetName = "aFull" -> aFull
+               [] AlphabetName = "aValid" -> aValid
+               [] AlphabetName = "aCore" -> aCore
+               [] AlphabetName = "aSmall" -> aSmall
+               [] AlphabetName = "aTiny" -> aTiny
+               [] AlphabetName = "aNeg" -> aNeg
+cPims == IF PimsName = "cPimsN" THEN cPimsN ELSE cPimsR
+INSTANCE FieldMask WITH Structs <- cStructs, Root <- RootName, Alphabet <- cAlphabet, Walks <- cWalks, Pims <- cPims,
+                        StrOrder <- cStrOrder
+
+\* the same denotations as AlphaDen / PimsDen of the instance, as definitions of this module (evaluated once)
+cAlphaDen == [i \in 1..Len(cAlphabet) |-> Denote(cAlphabet[i], RootTy0)]
+cPimsDen == [i \in 1..Len(cPims) |-> Denote(cPims[i], RootTy0)]
+
 ----------------------------------------------------------------------------
 WalkStep(s) == IF s.k = "s" THEN <<"s", s.s>> ELSE <<s.k, ToString(s.n)>>
 
 \* printed once: the concrete strings and the query set the cases refer to
-Meta == LET W == Walks
-           A == Alphabet
-           P == Pims
-       IN [root |-> Root,
+Meta == LET W == cWalks
+           A == cAlphabet
+           P == cPims
+       IN [root |-> RootName,
            alphabet |-> [i \in 1..Len(A) |-> Render(A[i])],
-           single |-> [i \in 1..Len(A) |-> Denote(A[i], RootTy).e],
+           single |-> [i \in 1..Len(A) |-> cAlphaDen[i].e],
            walks |-> [i \in 1..Len(W) |-> [j \in 1..Len(W[i]) |-> WalkStep(W[i][j])]],
            pims |-> [i \in 1..Len(P) |-> Render(P[i])],
-           structs |-> Structs]
+           structs |-> cStructs]
 ASSUME PrintT("META " \o ToJson(Meta))
 
 Emit ==
-  LET ex == Exprs(hist)
-      oa == OutcomeA(ex)
-      M == PathSet(ex)
+  LET d == [i \in 1..Len(hist) |-> cAlphaDen[hist[i]]]
+      oa == OutcomeD(d)
+      M == PathSetD(d)
       black == (mode = "B")
       built == (berr = "")
       aall == IF oa = "ok" THEN AllCode(AllAt(M, <<>>)) ELSE 0
       aw == IF oa = "ok" THEN JoinWalksA(M, black) ELSE <<>>
       ball == IF built THEN AllCode(AllOf(trie)) ELSE 0
       bw == IF built THEN JoinWalksB(trie) ELSE <<>>
-      ap == IF oa = "ok" /\ ~black /\ M # {} THEN JoinPimsA(M) ELSE <<>>
+      ap == IF oa = "ok" /\ ~black /\ M # {} THEN JoinPimsAD(M, cPimsDen) ELSE <<>>
       bp == IF built THEN JoinPimsB(trie) ELSE <<>>
   IN PrintT("CASE " \o ToJson(
-       [m |-> mode, h |-> hist, oa |-> oa, ek |-> ErrKindsA(ex),
+       [m |-> mode, h |-> hist, oa |-> oa, ek |-> ErrKindsD(d),
         key |-> IF oa = "ok" THEN M ELSE {}, ck |-> IF oa = "?" THEN ConflictKinds(M) ELSE {},
         aall |-> aall, aw |-> aw, ap |-> ap,
         be |-> berr, ball |-> ball, bw |-> bw, bp |-> bp,
